@@ -437,4 +437,172 @@ Section KMVProofs.
                                | eapply Permutation_in; [apply Permutation_sym; exact P|exact I]].
     - intros a m H. eapply krep_finish. exact H.
   Qed.
+
+  (* ---------------------------------------------------------------- the O(n log n) specification
+     merge sort + removal of adjacent duplicates computes exactly `usort`, hence `kmv_fast` is
+     `kmv_spec` *)
+  Local Notation le := (fun a b => ltb b a = false).
+  Local Notation wsorted := (StronglySorted le).
+  Local Notation kmerge := (kmerge ltb).
+  Local Notation kpairs := (kpairs ltb).
+  Local Notation kmsort_fuel := (kmsort_fuel ltb).
+  Local Notation kmsort := (kmsort ltb).
+  Local Notation kdedup := (kdedup eqb).
+
+  Lemma nlt_trans : forall a b c, ltb b a = false -> ltb c b = false -> ltb c a = false.
+  Proof.
+    intros a b c Hab Hbc. destruct (ltb c a) eqn:Eca; [|reflexivity]. exfalso.
+    destruct (ltb a b) eqn:Eab.
+    - pose proof (ltb_trans _ _ _ Eca Eab) as Hcb. congruence.
+    - pose proof (ltb_total _ _ Eab Hab) as E. subst b. congruence.
+  Qed.
+
+  Lemma kmerge_nil_l : forall b, kmerge [] b = b.
+  Proof. reflexivity. Qed.
+  Lemma kmerge_nil_r : forall a, kmerge a [] = a.
+  Proof. destruct a; reflexivity. Qed.
+  Lemma kmerge_cons : forall x a y b,
+    kmerge (x :: a) (y :: b) = if ltb y x then y :: kmerge (x :: a) b else x :: kmerge a (y :: b).
+  Proof. reflexivity. Qed.
+
+  Lemma kmerge_in : forall a b x, In x (kmerge a b) <-> In x a \/ In x b.
+  Proof.
+    induction a as [|x0 a' IHa]; intros b x.
+    - rewrite kmerge_nil_l. cbn [In]. tauto.
+    - induction b as [|y b' IHb].
+      + rewrite kmerge_nil_r. cbn [In]. tauto.
+      + rewrite kmerge_cons. destruct (ltb y x0).
+        * cbn [In]. rewrite IHb. cbn [In]. tauto.
+        * cbn [In]. rewrite IHa. cbn [In]. tauto.
+  Qed.
+
+  Lemma kmerge_wsorted : forall a b, wsorted a -> wsorted b -> wsorted (kmerge a b).
+  Proof.
+    induction a as [|x0 a' IHa]; intros b Ha Hb.
+    - rewrite kmerge_nil_l. exact Hb.
+    - induction b as [|y b' IHb].
+      + rewrite kmerge_nil_r. exact Ha.
+      + rewrite kmerge_cons.
+        inversion Ha as [|? ? Ha' Fa]; subst. inversion Hb as [|? ? Hb' Fb]; subst.
+        rewrite Forall_forall in Fa, Fb.
+        destruct (ltb y x0) eqn:L.
+        * constructor; [apply IHb; exact Hb'|].
+          rewrite Forall_forall. intros z Hz. apply (proj1 (kmerge_in _ _ _)) in Hz.
+          destruct Hz as [[<-|Hz]|Hz].
+          -- apply ltb_asym. exact L.
+          -- eapply nlt_trans; [apply ltb_asym; exact L | apply Fa; exact Hz].
+          -- apply Fb. exact Hz.
+        * constructor; [apply IHa; [exact Ha' | exact Hb]|].
+          rewrite Forall_forall. intros z Hz. apply (proj1 (kmerge_in _ _ _)) in Hz.
+          destruct Hz as [Hz|[<-|Hz]].
+          -- apply Fa. exact Hz.
+          -- exact L.
+          -- eapply nlt_trans; [exact L | apply Fb; exact Hz].
+  Qed.
+
+  Lemma kpairs_wsorted : forall n l, length l <= n -> Forall wsorted l -> Forall wsorted (kpairs l).
+  Proof.
+    induction n as [|n IH]; intros l Hn H.
+    - destruct l; [exact H | cbn in Hn; lia].
+    - destruct l as [|a [|b r]]; cbn [KMV.kpairs]; try exact H.
+      inversion H as [|? ? Ha H']; subst. inversion H' as [|? ? Hb Hr]; subst.
+      constructor; [apply kmerge_wsorted; assumption|].
+      apply IH; [cbn in Hn; lia | exact Hr].
+  Qed.
+
+  Lemma kpairs_in : forall n l x, length l <= n ->
+    (In x (concat (kpairs l)) <-> In x (concat l)).
+  Proof.
+    induction n as [|n IH]; intros l x Hn.
+    - destruct l; [tauto | cbn in Hn; lia].
+    - destruct l as [|a [|b r]]; cbn [KMV.kpairs]; try tauto.
+      cbn [concat]. rewrite !in_app_iff, kmerge_in, (IH r x) by (cbn in Hn; lia). tauto.
+  Qed.
+
+  Lemma fold_kmerge_spec : forall l, Forall wsorted l ->
+    wsorted (fold_right kmerge [] l) /\
+    forall x, In x (fold_right kmerge [] l) <-> In x (concat l).
+  Proof.
+    induction l as [|a l IH]; intro H; cbn [fold_right concat].
+    - split; [constructor | tauto].
+    - inversion H as [|? ? Ha Hl]; subst. destruct (IH Hl) as [S I].
+      split; [apply kmerge_wsorted; assumption|].
+      intro x. rewrite kmerge_in, in_app_iff, I. tauto.
+  Qed.
+
+  Lemma kmsort_fuel_spec : forall fuel l, Forall wsorted l ->
+    wsorted (kmsort_fuel fuel l) /\ forall x, In x (kmsort_fuel fuel l) <-> In x (concat l).
+  Proof.
+    induction fuel as [|f IH]; intros l H; cbn [KMV.kmsort_fuel].
+    - apply fold_kmerge_spec. exact H.
+    - destruct l as [|a [|b r]].
+      + split; [constructor | cbn; tauto].
+      + inversion H as [|? ? Ha _]; subst. split; [exact Ha|].
+        intro x. cbn [concat]. rewrite app_nil_r. tauto.
+      + destruct (IH (kpairs (a :: b :: r))) as [S I].
+        { eapply kpairs_wsorted; [apply le_n | exact H]. }
+        split; [exact S|]. intro x. rewrite I. eapply kpairs_in. apply le_n.
+  Qed.
+
+  Lemma kmsort_spec : forall l, wsorted (kmsort l) /\ forall x, In x (kmsort l) <-> In x l.
+  Proof.
+    intro l. unfold KMV.kmsort.
+    destruct (kmsort_fuel_spec 64 (map (fun x => [x]) l)) as [S I].
+    { rewrite Forall_forall. intros s Hs. apply in_map_iff in Hs. destruct Hs as (x & <- & _).
+      constructor; constructor. }
+    split; [exact S|]. intro x. rewrite I.
+    clear S I. induction l as [|y l IHl]; cbn [map concat app In]; [tauto|]. rewrite IHl. tauto.
+  Qed.
+
+  Lemma kdedup_cons2 : forall a b r,
+    kdedup (a :: b :: r) = if eqb a b then kdedup (b :: r) else a :: kdedup (b :: r).
+  Proof. reflexivity. Qed.
+
+  Lemma kdedup_in : forall l x, In x (kdedup l) <-> In x l.
+  Proof.
+    induction l as [|a l IH]; intro x; [tauto|].
+    destruct l as [|b r]; [tauto|]. rewrite kdedup_cons2.
+    destruct (eqb a b) eqn:E.
+    - apply eqb_eq in E. subst b. rewrite IH. cbn [In]. tauto.
+    - cbn [In]. rewrite IH. cbn [In]. tauto.
+  Qed.
+
+  Lemma kdedup_sorted : forall l, wsorted l -> sorted (kdedup l).
+  Proof.
+    induction l as [|a l IH]; intro H; [constructor|].
+    destruct l as [|b r]; [constructor; constructor|]. rewrite kdedup_cons2.
+    inversion H as [|? ? Hl Fa]; subst.
+    destruct (eqb a b) eqn:E; [apply IH; exact Hl|].
+    constructor; [apply IH; exact Hl|].
+    rewrite Forall_forall in Fa |- *. intros z Hz. apply (proj1 (kdedup_in _ _)) in Hz.
+    assert (Hab : ltb a b = true).
+    { destruct (ltb a b) eqn:L; [reflexivity|]. exfalso. apply eqb_false_iff in E. apply E.
+      apply ltb_total; [exact L | apply Fa; left; reflexivity]. }
+    cbn [In] in Hz. destruct Hz as [Hz|Hz]; [subst z; exact Hab|].
+    destruct (ltb a z) eqn:L; [reflexivity|]. exfalso.
+    assert (Eaz : a = z) by (apply ltb_total; [exact L | apply Fa; right; exact Hz]).
+    subst z. inversion Hl as [|? ? _ Fb]; subst. rewrite Forall_forall in Fb.
+    specialize (Fb a Hz). cbn beta in Fb. congruence.
+  Qed.
+
+  Theorem usort_fast_eq : forall l, usort_fast ltb eqb l = usort l.
+  Proof.
+    intro l. unfold usort_fast. destruct (kmsort_spec l) as [S I].
+    apply sorted_ext; [apply kdedup_sorted; exact S | apply usort_sorted|].
+    intro x. rewrite kdedup_in, I, usort_in. tauto.
+  Qed.
+
+  Theorem kmv_fast_eq : forall k l, kmv_fast ltb eqb k l = kmv_spec ltb eqb k l.
+  Proof. intros k l. unfold kmv_fast, kmv_spec. rewrite usort_fast_eq. reflexivity. Qed.
+
+  (* what every accumulator expression finishes to, in the fast form *)
+  Theorem kmv_finish_fast : forall k (e : aexpr R),
+    kmv_finish (aeval (kmv_combiner ltb eqb k) e) = kmv_fast ltb eqb (Nat.max k 4) (avalues e).
+  Proof. intros k e. rewrite kmv_fast_eq. apply kmv_finish_spec. Qed.
+
+  (* any two sketch sizes above the number of distinct ranks give the same (exact) answer *)
+  Theorem kmv_oversized_k : forall k1 k2 (e : aexpr R),
+    length (usort (avalues e)) < Nat.max k1 4 -> length (usort (avalues e)) < Nat.max k2 4 ->
+    kmv_finish (aeval (kmv_combiner ltb eqb k1) e) = kmv_finish (aeval (kmv_combiner ltb eqb k2) e).
+  Proof. intros k1 k2 e H1 H2. rewrite !kmv_exact_below_k by assumption. reflexivity. Qed.
 End KMVProofs.
